@@ -249,6 +249,13 @@ type WOmitColl struct {
 	Q  int64
 }
 
+// records that start with the string an earlier record ended with (a recycled bank must not remember its past life)
+type WShareStr struct {
+	S string
+	P *string
+	L []string
+}
+
 // a non-nil pointer to a zero value is not null
 type WPtrZero struct {
 	T *time.Time
@@ -471,6 +478,20 @@ func witnessCases() []witness {
 			z := int64(0)
 			return vals(WOmitColl{L: []null.Int{null.IntFrom(0), null.IntFrom(5), {}}, M: map[string]null.String{"a": null.StringFrom(""), "b": null.StringFrom("x"), "c": {}}, LP: []*int64{&z, nil, &z}, LS: []string{"", "x", ""}, Q: 1},
 				WOmitColl{Q: 2}, WOmitColl{L: []null.Int{null.IntFrom(0)}, LS: []string{""}, Q: 3})(c)
+		}},
+		{staticOf[WShareStr]("strings-shared-across-records"), func(c *driverCtx) []reflect.Value {
+			x, y, z := "a long string that several records share with each other", strings.Repeat("y", 45), strings.Repeat("z", 33)
+			var out []WShareStr
+			for i := 0; i < 12; i++ {
+				if i%3 == 0 {
+					sh := "ab"
+					out = append(out, WShareStr{S: "", P: &sh, L: []string{"c", x}})
+				} else {
+					yy := y
+					out = append(out, WShareStr{S: x, P: &yy, L: []string{z, fmt.Sprint("tail", i), x}})
+				}
+			}
+			return vals(out...)(c)
 		}},
 		{staticOf[WPtrZero]("pointers-to-zero-values"), func(c *driverCtx) []reflect.Value {
 			zs, zi, zf := "", int64(0), 0.0
